@@ -12,6 +12,9 @@ VERIF = os.path.dirname(os.path.dirname(os.path.abspath(__file__)))
 REPO = os.environ.get("VERIF_REPO", "/repo")
 DEPS = os.path.join(VERIF, ".deps")
 WORK = os.path.join(VERIF, ".work")
+# where evidence/ and replays/ go: /verif, unless the acceptance tooling (tools/auto_mutants.py runs several scratch trees at
+# once) redirects it; registered commands never set this
+OUT = os.environ.get("VERIF_OUT") or VERIF
 WHEELS = "/opt/veriftools/wheels"
 
 sys.dont_write_bytecode = True
